@@ -1128,5 +1128,15 @@ def rule_wait_graph(ctx):
     r(ctx, 'C11.p')
 
 
+
+def rule_drain_cannot_abort(ctx):
+    """(shared C09.e)  The loops of the close sequence that fail the unsent frames settle each sent-future under an
+    at-most-once guard: an awaitable the application has already cancelled (a wait_for timeout) would otherwise raise
+    InvalidStateError in the middle of the drain, and every awaitable queued behind it would stay pending."""
+    from .c07 import check_guarded_resolve
+    check_guarded_resolve(ctx, 'C09.e', only_module={'rsocket.rsocket_base'})
+
+
+
 RULES = [('C11.a', rule_a), ('C11.b', rule_b), ('C11.b', rule_b2), ('C11.c', rule_c), ('C11.d', rule_d), ('C11.e', rule_e),
-         ('C11.f', rule_f), ('C11.g', rule_g), ('C11.h', rule_h), ('C11.i', rule_i), ('C11.f', rule_wrap), ('C11.g+C11.e', rule_plumbing), ('C11.j', rule_group_close), ('C11.k', rule_k), ('C11.l', rule_l), ('C11.m', rule_m), ('C11.k', rule_termination_event), ('C11.n', rule_no_wait_cycle), ('C11.o', rule_close_does_not_wait_for_the_peer), ('C11.p', rule_wait_graph)]
+         ('C11.f', rule_f), ('C11.g', rule_g), ('C11.h', rule_h), ('C11.i', rule_i), ('C11.f', rule_wrap), ('C11.g+C11.e', rule_plumbing), ('C11.j', rule_group_close), ('C11.k', rule_k), ('C11.l', rule_l), ('C11.m', rule_m), ('C11.k', rule_termination_event), ('C11.n', rule_no_wait_cycle), ('C11.o', rule_close_does_not_wait_for_the_peer), ('C11.p', rule_wait_graph), ('C09.e', rule_drain_cannot_abort)]
